@@ -275,8 +275,9 @@ func (v *FnVerifier) reset() {
 	v.loopsFound = map[int]bool{}
 	v.pending = nil
 	v.ceils = nil
-	v.opqDeps, v.opqDone, v.rec = nil, nil, nil
+	v.opqDeps, v.opqDone, v.rec, v.opqBusy = nil, nil, nil, nil
 	v.siteSeen, v.assertSites = nil, map[int]bool{}
+	v.localRefs = nil
 	v.now0 = v.ctx.Const("now!0", SInt)
 	v.entry = &State{arr: map[string]Term{}, now: v.now0}
 }
